@@ -46,6 +46,27 @@ def make_pairs(rng, count):
         area = rng.choice([1, 100, Fraction(75, 2)])
         b = gen.gen_building(rng, allow_multi_aux=False, force=rng.choice([{"pv"}, {"chp"}, {"pv", "chp"}, {"nepb", "pv"}, set(), {"hp", "pv"}]))
         loc = rng.choice(core.LOCS)
+        crafted = None
+        if rng.random() < 0.2:
+            # cogeneration that exports most of its electricity at some steps, use (and the extra on-site production, which is then
+            # consumed on the spot) at the other steps; a little on-site production already there: the exported electricity is
+            # cogenerated, whatever the annual shares of the two sources
+            n = rng.choice([2, 3, 12])
+            A = [t for t in range(n) if rng.random() < 0.5] or [0]
+            if len(A) == n:
+                A = A[:-1]
+            u = [Fraction(0) if t in A else gen.dy(rng, 64 * 50, 64 * 200) for t in range(n)]
+            c = [gen.dy(rng, 64 * 50, 64 * 200) if t in A else Fraction(0) for t in range(n)]
+            b = gen.Building()
+            b.n = n
+            b.add("CONSUMO", id=1, service="ILU", carrier="ELECTRICIDAD", values=u)
+            b.add("CONSUMO", id=2, service="COGEN", carrier=rng.choice(["GASNATURAL", "GASOLEO", "BIOMASA"]), values=[x * 3 for x in c])
+            b.add("PRODUCCION", id=2, source="EL_COGEN", values=c)
+            b.add("PRODUCCION", id=3, source="EL_INSITU", values=[x / 16 for x in u])
+            b.tags.add("cogen_exports_pv_self_consumed")
+            crafted = [x / rng.choice([2, 4, 8]) for x in u]
+            k = rng.choice([0, 0, Fraction(1, 8), Fraction(1, 4)])
+            loc = rng.choice(["PENINSULA", loc])
         user = {}
         base_text = "\n".join(line_of(kd, kw) for kd, kw in b.lines) + "\n"
         evals = [(float(k), float(area), False), (float(k), float(area), True)]
@@ -54,7 +75,9 @@ def make_pairs(rng, count):
         variants = []
         for j in range(2):
             mode = rng.choice(["one_step", "all_steps", "some_steps"])
-            if mode == "all_steps":
+            if crafted is not None and j == 0:
+                mode, dv = "self_consumed_steps", crafted
+            elif mode == "all_steps":
                 dv = [gen.dy(rng, 1, 64 * 300) for _ in range(b.n)]
             elif mode == "one_step":
                 t = rng.randrange(b.n)
